@@ -110,11 +110,20 @@ claim("C06", "proof",
       TB + " Safety holds only outside the two recorded findings.",
       "Coq proof (exactness, potential-function work bound) + refutation witnesses (vm_compute) + truncation/overwrite sweep against a declarative spec")
 claim("C12", "proof",
-      "10 theorems (Properties_C12.v) over GroupIter.v, written through CInt for all 16 (numInGroup, blockLength) type pairs: "
-      "begin+size=end, it[n]=*(it+n), (it+n)-n=it for both signs, distance/order = index, entry i at data start + i x wire "
-      "blockLength (blockLength 0 included), out-of-range subscript asserts, nested forward chain, resize frame; legacy "
-      "arithmetic refuted by vm_compute. Correspondence: sbeppc-generated 16-pair schema, iterator expressions to depth 3 "
-      "over boundary sizes/block lengths, checks on and off, UBSan build.",
+      "12 theorems (Properties_C12.v) over GroupIter.v, written through CInt for all 16 (numInGroup, blockLength) type pairs "
+      "and for an ARBITRARY size H of the dimension composite (sbepp::size_bytes(dimension); field g_hdr of a group, only "
+      "sizeof(blockLength)+sizeof(numInGroup) <= H < 2^63 is assumed, the positions of the two members inside the header "
+      "are irrelevant to the iterator algebra; at the byte level a layout (H, offset of blockLength, offset of numInGroup) "
+      "with both members inside and not overlapping, in any order, any other header bytes arbitrary): "
+      "begin+size=end, it[n]=*(it+n), (it+n)-n=it for both signs, distance/order = index, entry i at data start (group "
+      "address + H) + i x wire blockLength (blockLength 0 included), out-of-range subscript asserts, nested forward chain "
+      "starting right after the H header bytes, resize frame (only the numInGroup bytes change, wherever they lie); the "
+      "two-member composite is proved to be an instance; legacy arithmetic refuted by vm_compute. Correspondence: "
+      "sbeppc-generated schema with the 16 two-member dimension composites plus 8 of other shapes (trailing numGroups/"
+      "numVarDataFields for 4 pairs, blockLength at offset 0 / numInGroup at offset 8 for 2, numInGroup declared before "
+      "blockLength for 2; flat and nested groups), the case lines carry the composite (types, shape, size, member offsets) "
+      "and the header bytes built from the schema's member offsets; iterator expressions to depth 3 "
+      "over boundary sizes/block lengths, checks on and off, UBSan build, for every composite.",
       TB + " difference_type is pinned by the existing tests: distances above max/2 are outside the theorems' guards.",
       "Coq proof (iterator algebra through a C++ integer model) + differential correspondence")
 claim("C13", "proof",
